@@ -55,7 +55,7 @@ struct Cfg {
   bool reconnect = false;  // client calls reconnect()
   std::vector<ReqDef> reqs;
   std::vector<AnsDef> answers;
-  long maxNodes = 3000000;
+  long maxNodes = 600000;
   bool escQQ = false;
   bool autoPoll = true;    // a waiter takes its finished request at the end of the step that finished it
 };
@@ -228,18 +228,21 @@ struct FakeTransport : public Transport {
 struct VReq;
 static std::vector<VReq*> g_reqs;
 static std::string jb(const SymbolString& s) { std::string o; vf::jbytes(&o, s.data(), s.size()); return o; }
+static std::vector<MasterSymbolString*> g_masters;  // request contents live outside the request objects (never freed)
 struct VReq : public BusRequest {
-  MasterSymbolString ms;
+  // no owning members: a (wrong) second destruction of a request must not crash the harness but be reported as an event
   int idx, kind, restartsLeft, status;  // status: 0 idle, 1 active (owned by handler), 2 completed (in finished queue), 3 deleted
-  int result; std::vector<uint8_t> slave;
-  VReq(int i, const ReqDef& d) : BusRequest(ms, d.kind == 1), idx(i), kind(d.kind), restartsLeft(d.restarts), status(0), result(0) {
-    for (uint8_t x : d.master) ms.push_back(x);
-  }
+  int result; uint8_t slaveLen; uint8_t slaveBuf[40];
+  const MasterSymbolString& ms;
+  VReq(int i, const ReqDef& d) : BusRequest(*g_masters[i], d.kind == 1), idx(i), kind(d.kind), restartsLeft(d.restarts), status(0), result(0),
+    slaveLen(0), ms(*g_masters[i]) {}
+  std::vector<uint8_t> slave() const { return std::vector<uint8_t>(slaveBuf, slaveBuf + slaveLen); }
+  void setSlave(const uint8_t* d, size_t n) { slaveLen = (uint8_t)std::min<size_t>(n, sizeof slaveBuf); memcpy(slaveBuf, d, slaveLen); }
   bool notify(result_t res, const SlaveSymbolString& sl) override {
     bool restart = kind == 2 && restartsLeft > 0;
     if (restart) restartsLeft--;
     char b[64]; snprintf(b, sizeof b, "[\"ntf\",%d,%d,", idx, (int)res); ev(std::string(b) + jb(sl) + (restart ? ",1," : ",0,") + std::to_string(status) + "]");
-    result = res; slave.assign(sl.data(), sl.data() + sl.size());
+    result = res; setSlave(sl.data(), sl.size());
     if (!restart) status = 2;
     return restart;
   }
@@ -319,7 +322,7 @@ struct VerifAccess {
     s->finq.clear(); for (BusRequest* r : h->m_finishedRequests.m_queue) s->finq.push_back(reqIndex(r));
     size_t n = g_reqs.size(); s->rstatus.resize(n); s->rretries.resize(n); s->rrestarts.resize(n); s->rresult.resize(n); s->rslave.resize(n);
     for (size_t i = 0; i < n; i++) { VReq* r = g_reqs[i]; s->rstatus[i] = r->status; s->rretries[i] = r->status == 3 ? 0 : (int)r->m_busLostRetries;
-      s->rrestarts[i] = r->restartsLeft; s->rresult[i] = r->result; s->rslave[i] = r->slave; }
+      s->rrestarts[i] = r->restartsLeft; s->rresult[i] = r->result; s->rslave[i] = r->slave(); }
     s->arbMaster = d->m_arbitrationMaster; s->arbCheck = (int)d->m_arbitrationCheck;
     s->enhResetAge = 0; s->enhResetRequested = 0; s->enhFeatures = 0; s->enhInfoLen = 0; s->enhInfoPos = 0; s->enhInfoBuf.clear();
     if (C.enhanced) { EnhancedDevice* e = static_cast<EnhancedDevice*>(d);
@@ -343,7 +346,7 @@ struct VerifAccess {
       VReq* r = g_reqs[i];
       if (r->status != 3) { r->status = 3; r->~VReq(); }
       new (r) VReq((int)i, C.reqs[i]);
-      r->status = s.rstatus[i]; r->m_busLostRetries = s.rretries[i]; r->restartsLeft = s.rrestarts[i]; r->result = s.rresult[i]; r->slave = s.rslave[i];
+      r->status = s.rstatus[i]; r->m_busLostRetries = s.rretries[i]; r->restartsLeft = s.rrestarts[i]; r->result = s.rresult[i]; r->setSlave(s.rslave[i].data(), s.rslave[i].size());
     }
     g_ev.swap(saved);
     h->m_currentRequest = s.cur >= 0 ? g_reqs[s.cur] : nullptr;
@@ -405,6 +408,7 @@ static void construct() {
     bool ok = g_h->setAnswer(a.src, a.dst, a.pb, a.sb, a.id.data(), a.id.size(), s);
     if (!ok) { fprintf(stderr, "setAnswer rejected\n"); exit(2); }
   }
+  for (const ReqDef& d : C.reqs) { MasterSymbolString* m = new MasterSymbolString(); for (uint8_t x : d.master) m->push_back(x); g_masters.push_back(m); }
   g_reqMem = calloc(C.reqs.size() + 1, sizeof(VReq));
   std::string saved; saved.swap(g_ev);
   for (size_t i = 0; i < C.reqs.size(); i++) g_reqs.push_back(new ((char*)g_reqMem + i * sizeof(VReq)) VReq((int)i, C.reqs[i]));
@@ -432,7 +436,7 @@ static bool execToken(const std::string& tok, Input* in) {
   if (tok.compare(0, 5, "POLL=") == 0) {
     int r = atoi(tok.c_str() + 5); VReq* q = g_reqs[r];
     if (q->kind == 1 || (q->status != 1 && q->status != 2)) return false;
-    if (VerifAccess::pollFinished(g_h, q)) { ev("[\"fin\"," + std::to_string(r) + "," + std::to_string(q->result) + "," + vf::jbytes(q->slave) + "]"); q->status = 0; q->result = 0; q->slave.clear(); }
+    if (VerifAccess::pollFinished(g_h, q)) { ev("[\"fin\"," + std::to_string(r) + "," + std::to_string(q->result) + "," + vf::jbytes(q->slave()) + "]"); q->status = 0; q->result = 0; q->slaveLen = 0; }
     else ev("[\"nofin\"," + std::to_string(r) + "]");
     return true;
   }
@@ -452,8 +456,8 @@ static bool execToken(const std::string& tok, Input* in) {
   if (C.autoPoll) for (size_t r = 0; r < g_reqs.size(); r++) {
     VReq* q = g_reqs[r];
     if (q->kind != 1 && q->status == 2 && VerifAccess::pollFinished(g_h, q)) {
-      ev("[\"fin\"," + std::to_string(r) + "," + std::to_string(q->result) + "," + vf::jbytes(q->slave) + "]");
-      q->status = 0; q->result = 0; q->slave.clear();
+      ev("[\"fin\"," + std::to_string(r) + "," + std::to_string(q->result) + "," + vf::jbytes(q->slave()) + "]");
+      q->status = 0; q->result = 0; q->slaveLen = 0;
     }
   }
   return true;
@@ -585,7 +589,10 @@ static int cmdGraph(const char* outPath) {
     }
     line += "]}\n";
     out.raw(line); nedges += (long)edges.size();
-    if (nextId > C.maxNodes) { fprintf(stderr, "graph exceeds maxnodes=%ld (no fix-point)\n", C.maxNodes); printf("{\"nodes\":%ld,\"edges\":%ld,\"fixpoint\":false}\n", expanded, nedges); return 4; }
+    if (nextId > C.maxNodes) {  // no fix-point within the budget: the partial graph (real paths only) is still written
+      for (long k = expanded + 1; k < nextId; k++) out.raw("{\"id\":" + std::to_string(k) + ",\"succ\":[]}\n");
+      printf("{\"nodes\":%ld,\"edges\":%ld,\"fixpoint\":false}\n", nextId - 1, nedges); return 0;
+    }
   }
   printf("{\"nodes\":%ld,\"edges\":%ld,\"fixpoint\":true}\n", expanded, nedges);
   return 0;
